@@ -289,6 +289,7 @@ def collect(prop, tier):
 
 
 TIMEOUT_SCALE = 1
+MAX_RETRY_CASES = 12
 
 
 def _is_undecided_only(r):
@@ -317,7 +318,13 @@ def run_jobs(jobs, nproc=None):
     # a solver time-out is load dependent: cases whose only problem is an undecided obligation are re-run once, with
     # four times the solver budget and little parallelism, before the verdict is reported (never turns a refutation green)
     redo = [i for i, r in enumerate(results) if _is_undecided_only(r)]
+    if len(redo) > MAX_RETRY_CASES:
+        # that many undecided cases are not the odd load-dependent time-out: report them as they are
+        print(f'{len(redo)} undecided cases: not retried (more than {MAX_RETRY_CASES})', file=sys.stderr, flush=True)
+        redo = []
     if redo and os.environ.get('PYVC_NO_RETRY') != '1':
+        print(f'retrying {len(redo)} case(s) whose only problem was an undecided obligation: '
+              f'{[results[i]["label"] for i in redo][:6]}', file=sys.stderr, flush=True)
         ctx = mp.get_context('fork')
         with ctx.Pool(min(4, len(redo)), maxtasksperchild=1) as pool:
             again = pool.map(_worker_retry, [jobs[i] for i in redo], chunksize=1)
